@@ -391,17 +391,32 @@ func registerIntercepts(e *Engine) {
 	e.reg("time.AfterFunc", func(c *CallCtx, st *State, args []Value) []Outcome { return one(st, Ptr{}) })
 
 	// ---- sync ----
+	// sync.Mutex: ghost owner flag per mutex: 0 free, 1 held by the code under test, 2 held by
+	// somebody else (zzv.MutexHoldByOther). Lock on 2 returns after the other holder released it.
+	mutexCell := func(c *CallCtx, st *State, v Value) int {
+		p := v.(Ptr)
+		return c.E.namedCell(st, fmt.Sprintf("mutex:%d%v", p.Cell, p.Path), func() Value { return smt.IntC(0) })
+	}
 	lock := func(v int64) Intercept {
 		return func(c *CallCtx, st *State, args []Value) []Outcome {
-			p := args[0].(Ptr)
-			name := fmt.Sprintf("mutex:%d%v", p.Cell, p.Path)
-			cell := c.E.namedCell(st, name, func() Value { return smt.IntC(0) })
-			st.heap[cell] = smt.IntC(v)
+			st.heap[mutexCell(c, st, args[0])] = smt.IntC(v)
 			return one(st, nil)
 		}
 	}
 	e.reg("(*sync.Mutex).Lock", lock(1))
 	e.reg("(*sync.Mutex).Unlock", lock(0))
+	e.reg("(*sync.Mutex).TryLock", func(c *CallCtx, st *State, args []Value) []Outcome {
+		cell := mutexCell(c, st, args[0])
+		if st.heap[cell].(*smt.Term).SInt() == 0 {
+			st.heap[cell] = smt.IntC(1)
+			return one(st, smt.True)
+		}
+		return one(st, smt.False)
+	})
+	e.reg(ZzvPath+".MutexHoldByOther", func(c *CallCtx, st *State, args []Value) []Outcome {
+		st.heap[mutexCell(c, st, args[0])] = smt.IntC(2)
+		return one(st, nil)
+	})
 	e.reg("(*sync.RWMutex).Lock", lock(1))
 	e.reg("(*sync.RWMutex).Unlock", lock(0))
 	e.reg("(*sync.RWMutex).RLock", noop)
@@ -655,6 +670,44 @@ func registerIntercepts(e *Engine) {
 			return one(st, Str{S: join(parts...)})
 		}
 	}
+	e.reg("path.Base", func(c *CallCtx, st *State, args []Value) []Outcome {
+		a, ok := strArg(args[0])
+		if !ok {
+			return one(st, Str{S: "<pathbase>"})
+		}
+		return one(st, Str{S: path.Base(a)})
+	})
+	// os.ReadFile: label / name / modalias files of the fake hwmon tree do not exist
+	e.reg("os.ReadFile", func(c *CallCtx, st *State, args []Value) []Outcome {
+		p, _ := strArg(args[0])
+		return one(st, Tuple{Slice{}, c.E.newError(st, "open "+p+": no such file or directory")})
+	})
+	// fmt.Sscanf on a concrete string with %d verbs into *int arguments
+	e.reg("fmt.Sscanf", func(c *CallCtx, st *State, args []Value) []Outcome {
+		str, ok1 := strArg(args[0])
+		format, ok2 := strArg(args[1])
+		if !ok1 || !ok2 {
+			c.E.abort("fmt.Sscanf on symbolic operands is not modelled")
+		}
+		ptrs := c.E.sliceElems(st, args[2])
+		vals := make([]int, len(ptrs))
+		dst := make([]interface{}, len(ptrs))
+		for i := range vals {
+			dst[i] = &vals[i]
+		}
+		n, err := fmt.Sscanf(str, format, dst...)
+		for i := 0; i < n && i < len(ptrs); i++ {
+			iv, ok := ptrs[i].(Iface)
+			if !ok {
+				c.E.abort("fmt.Sscanf: unsupported destination")
+			}
+			st.Store(iv.V.(Ptr), smt.IntC(int64(vals[i])))
+		}
+		if err != nil {
+			return one(st, Tuple{smt.IntC(int64(n)), c.E.newError(st, err.Error())})
+		}
+		return one(st, Tuple{smt.IntC(int64(n)), nilErr})
+	})
 	e.reg("path.Join", joinFn(path.Join))
 	e.reg("path/filepath.Join", joinFn(filepath.Join))
 	e.reg("regexp.MatchString", func(c *CallCtx, st *State, args []Value) []Outcome {
